@@ -870,22 +870,21 @@ func (schema *Schema) IsEmpty() bool {
 		schema.MinProps != 0 || schema.MaxProps != nil {
 		return false
 	}
-	if n := schema.Not; n != nil && n.Value != nil && !n.Value.IsEmpty() {
+	// "not" is never equivalent to `{}`, even over an empty schema (which matches nothing then).
+	if schema.Not != nil {
 		return false
 	}
-	if ap := schema.AdditionalProperties.Schema; ap != nil && ap.Value != nil && !ap.Value.IsEmpty() {
+	// Sub-schemas of items, properties and additionalProperties constrain nested
+	// values even when empty: like `{}` itself they do not admit null.
+	if schema.AdditionalProperties.Schema != nil || schema.Items != nil || len(schema.Properties) != 0 {
 		return false
 	}
 	if apa := schema.AdditionalProperties.Has; apa != nil && !*apa {
 		return false
 	}
-	if items := schema.Items; items != nil && items.Value != nil && !items.Value.IsEmpty() {
+	// Two or more empty schemas under "oneOf" all match: that is not equivalent to `{}` either.
+	if len(schema.OneOf) > 1 {
 		return false
-	}
-	for _, s := range schema.Properties {
-		if ss := s.Value; ss != nil && !ss.IsEmpty() {
-			return false
-		}
 	}
 	for _, s := range schema.OneOf {
 		if ss := s.Value; ss != nil && !ss.IsEmpty() {
